@@ -1,4 +1,5 @@
 import RagcModel.Lemmas.WriterFixed
+import RagcModel.Lemmas.WriterSamples
 import RagcModel.Props.C03
 /-!
 Helper lemmas for `read_write` (C01/C02), part 8: the catalogue. `parseDetailsPart`, `decodeBatch`
@@ -253,5 +254,182 @@ theorem batchLoop_ok (zc : Nat → List Nat → List Nat) (zd : List Nat → Opt
       have e2 : idx + 1 + (storeBatches segSize k 50 (ss.drop 50)).length
           = idx + ((storeBatches segSize k 50 (ss.drop 50)).length + 1) := by omega
       rw [e1, e2]
+
+/-! ## the writer's catalogue meets the C03 hypotheses -/
+
+theorem tilesFromB_le (k n : Nat) : ∀ (lens : List Nat) (e : Nat), tilesFromB k n e lens = true →
+    ∀ l ∈ lens, l ≤ n := by
+  intro lens
+  induction lens with
+  | nil => intro e _ l hl; cases hl
+  | cons x xs ih =>
+    intro e h l hl
+    simp only [tilesFromB, Bool.and_eq_true, decide_eq_true_eq] at h
+    simp only [List.mem_cons] at hl
+    rcases hl with rfl | hl
+    · omega
+    · exact ih _ h.2 l hl
+
+theorem tilesB_le (k n : Nat) (lens : List Nat) (h : tilesB k n lens = true) : ∀ l ∈ lens, l ≤ n := by
+  cases lens with
+  | nil => intro l hl; cases hl
+  | cons x xs =>
+    simp only [tilesB, Bool.and_eq_true, decide_eq_true_eq] at h
+    intro l hl
+    simp only [List.mem_cons] at hl
+    rcases hl with rfl | hl
+    · exact h.1
+    · exact tilesFromB_le k n xs x h.2 l hl
+
+theorem nameOK_iff (n : List Nat) (h : nameOK n = true) : ∀ b ∈ n, 1 ≤ b ∧ b ≤ 127 := by
+  intro b hb
+  unfold nameOK at h
+  have := List.all_eq_true.mp h b hb
+  simpa using this
+
+theorem mem_zipWith {α β γ : Type} (f : α → β → γ) (l : List α) (l' : List β) (x : γ)
+    (h : x ∈ List.zipWith f l l') : ∃ (i : Nat) (a : α) (b : β), l[i]? = some a ∧ l'[i]? = some b ∧ x = f a b := by
+  obtain ⟨i, hi⟩ := List.mem_iff_getElem?.mp h
+  obtain ⟨a, b, h1, h2, h3⟩ := zipWith_get_inv f l l' i x hi
+  exact ⟨i, a, b, h1, h2, h3⟩
+
+theorem catalogue_ok (cfg : Cfg) (inp : List Writer.Sample) (dec : Decisions) (zc : Nat → List Nat → List Nat)
+    (outs : List GroupOut) (hok : DecOK cfg inp dec) (hcodes : codesOK inp)
+    (hw : writeGroups cfg zc (storedAll cfg.k inp dec) dec.groups = some outs) :
+    ∀ x ∈ catalogue inp dec outs, CatSampleOK x := by
+  intro x hx
+  unfold catalogue at hx
+  obtain ⟨s, smp, dcs, h1, h3, rfl⟩ := mem_zipWith _ _ _ _ hx
+  have hS := hok.samples _ (mem_zip_of_get _ _ _ _ _ h1 h3)
+  refine ⟨nameOK_iff _ hS.name, ?_, ?_⟩
+  · simp only [List.length_zipWith]
+    have hcnt : smp.contigs.length < 2 ^ 32 := hS.cnt
+    omega
+  · intro cc hcc
+    obtain ⟨c, ctg, ds, h2, h4, rfl⟩ := mem_zipWith _ _ _ _ hcc
+    have hC := hS.contigs _ (mem_zip_of_get _ _ _ _ _ h2 h4)
+    refine ⟨nameOK_iff _ hC.name, by simpa using hC.cnt, ?_⟩
+    intro g hg
+    simp only [List.mem_map] at hg
+    obtain ⟨d, hd, rfl⟩ := hg
+    obtain ⟨j, hj⟩ := List.mem_iff_getElem?.mp hd
+    obtain ⟨G, datas, P, _, hGid, hG32, _, _, hids, hslot, hbound, hid⟩ :=
+      piece_plan cfg inp dec zc outs hok hcodes hw s c j dcs ds d h3 h4 hj
+    have hlen : d.len ≤ ctg.data.length :=
+      tilesB_le cfg.k _ _ hC.tiles d.len (List.mem_map.mpr ⟨d, hd, rfl⟩)
+    have hl32 : ctg.data.length < 2 ^ 32 := hC.len
+    unfold descOf
+    simp only [hids]
+    refine ⟨by rw [← hGid]; exact hG32, by omega, by omega⟩
+
+theorem catalogue_length (inp : List Writer.Sample) (dec : Decisions) (outs : List GroupOut)
+    (h : dec.pieces.length = inp.length) : (catalogue inp dec outs).length = inp.length := by
+  unfold catalogue
+  simp [List.length_zipWith, h]
+
+theorem catalogue_names (inp : List Writer.Sample) (dec : Decisions) (outs : List GroupOut)
+    (h : dec.pieces.length = inp.length) : (catalogue inp dec outs).map (·.name) = inp.map (·.name) := by
+  unfold catalogue
+  rw [List.map_zipWith]
+  exact zipWith_fst (fun s : Writer.Sample => s.name) inp dec.pieces h
+
+theorem catalogue_tables (inp : List Writer.Sample) (dec : Decisions) (outs : List GroupOut) :
+    (catalogue inp dec outs).map tableOfSample
+      = List.zipWith (fun s dcs => tableOf outs s.contigs dcs) inp dec.pieces := by
+  unfold catalogue
+  rw [List.map_zipWith]
+  apply zipWith_congr_mem
+  intro x _
+  simp only [tableOfSample, tableOf, List.map_zipWith]
+
+/-! ## `decodeCatalogue` -/
+
+theorem mem_storeBatches (segSize k : Nat) : ∀ (n : Nat) (ss : List Details.Sample), ss.length = n →
+    ∀ b ∈ storeBatches segSize k 50 ss, ∃ chunk, b = storeBatch segSize k chunk := by
+  intro n
+  induction n using Nat.strongRecOn with
+  | _ n ih =>
+    intro ss hn b hb
+    by_cases h : ss = []
+    · subst h; rw [storeBatches_nil] at hb; cases hb
+    · have hpos : 0 < ss.length := List.length_pos_iff.mpr h
+      rw [storeBatches_cons _ _ _ h] at hb
+      simp only [List.mem_cons] at hb
+      rcases hb with rfl | hb
+      · exact ⟨_, rfl⟩
+      · exact ih (ss.drop 50).length (by simp only [List.length_drop]; omega) _ rfl b hb
+
+theorem mapM_ok_map {α β ε : Type} (f : α → Except ε β) (g : α → β) :
+    ∀ (l : List α), (∀ x ∈ l, f x = .ok (g x)) → l.mapM f = .ok (l.map g) := by
+  intro l
+  induction l with
+  | nil => intro _; rfl
+  | cons x xs ih =>
+    intro h
+    rw [List.mapM_cons, h x (by simp), ih (fun y hy => h y (by simp [hy]))]
+    rfl
+
+theorem decodeCatalogue_ok (zc : Nat → List Nat → List Nat) (zd : List Nat → Option (List Nat))
+    (hz : ∀ l x, zd (zc l x) = some x) (hne : ∀ l x, zc l x = [] → x = [])
+    (cfg : Cfg) (dec : Decisions) (inp : List Writer.Sample) (outs : List GroupOut) (o : Opened)
+    (cat : List Details.Sample)
+    (h : Opens o (regNames dec) (partList cfg zc inp outs (storeBatches cfg.segSize cfg.k 50 cat)))
+    (hfit : (storeBatches cfg.segSize cfg.k 50 cat).all (sizesFit zc) = true)
+    (hcat : ∀ x ∈ cat, CatSampleOK x) (hlen : cat.length = inp.length) (hn : inp.length < 2 ^ 32)
+    (hnameok : ∀ s ∈ inp, ∀ b ∈ s.name, 1 ≤ b ∧ b ≤ 127)
+    (hpred : cfg.segSize + cfg.k ≤ 2 ^ 31) (a : Acc) :
+    decodeCatalogue zd o cfg.k cfg.segSize a
+      = .ok (a, inp.map (·.name), (cat.map tableOfSample).toArray, (storeBatches cfg.segSize cfg.k 50 cat).length) := by
+  obtain ⟨p1, p2, p3, p4, p5⟩ := partsOf_fixed cfg zc inp outs (storeBatches cfg.segSize cfg.k 50 cat)
+  obtain ⟨st1, hf1, hm1, hn1⟩ := find_stream o _ _ h (Writer.str "collection-samples")
+    (fixed_mem_regNames dec _ (by decide))
+  obtain ⟨st2, hf2, hm2, hn2⟩ := find_stream o _ _ h (Writer.str "collection-contigs")
+    (fixed_mem_regNames dec _ (by decide))
+  obtain ⟨st3, hf3, hm3, hn3⟩ := find_stream o _ _ h (Writer.str "collection-details")
+    (fixed_mem_regNames dec _ (by decide))
+  -- the sample names part
+  have hraw : encodeSampleNames (inp.map (·.name)) ≠ [] := by
+    unfold encodeSampleNames
+    intro hc
+    exact Ragc.CollVarint.encode_ne_nil _ (List.append_eq_nil_iff.mp hc).1
+  have hsp : Spec.readBack (samplesPart zc inp)
+      = (zc levelSamples (encodeSampleNames (inp.map (·.name))), (encodeSampleNames (inp.map (·.name))).length) :=
+    readBack_nonempty _ _ (fun hc => hraw (hne _ _ hc))
+  -- the descriptor parts parse
+  have hparse : ((storeBatches cfg.segSize cfg.k 50 cat).map fun b => Spec.readBack (detailsPart zc b)).mapM parseDetailsPart
+      = .ok ((storeBatches cfg.segSize cfg.k 50 cat).map (parsedDetails zc)) := by
+    rw [List.mapM_map]
+    apply mapM_ok_map
+    intro b hb
+    obtain ⟨chunk, rfl⟩ := mem_storeBatches cfg.segSize cfg.k _ cat rfl b hb
+    have hfb := List.all_eq_true.mp hfit _ hb
+    exact parseDetailsPart_ok zc _ _ _ _ _ _ hfb
+  have hrc : readCollection o = .ok ⟨Spec.readBack (samplesPart zc inp),
+      (storeBatches cfg.segSize cfg.k 50 cat).map (fun b => Spec.readBack (contigsPart zc b)),
+      (storeBatches cfg.segSize cfg.k 50 cat).map (parsedDetails zc)⟩ := by
+    unfold readCollection findFixed
+    rw [str_eq, str_eq, str_eq, hf1, hf2, hf3]
+    simp only [bind, Except.bind]
+    rw [h.read st1 hm1, h.read st2 hm2, h.read st3 hm3, hn1, hn2, hn3, p3, p4, p5]
+    simp only [hparse]
+    rfl
+  unfold decodeCatalogue
+  rw [hrc]
+  simp only [bind, Except.bind, hsp, hz, pure, Except.pure, if_true]
+  rw [Ragc.Props.C03.sample_names_roundtrip _ (by simpa using hn) (by
+    intro n hnm
+    obtain ⟨s, hs, rfl⟩ := List.mem_map.mp hnm
+    exact hnameok s hs)]
+  simp only [List.length_map]
+  have hnB : (storeBatches cfg.segSize cfg.k 50 cat).length = (inp.length + packCard - 1) / packCard := by
+    rw [storeBatches_length _ _ _ cat rfl, hlen]
+    unfold packCard
+    congr 1
+  rw [if_pos ⟨hnB, hnB⟩]
+  have hloop := batchLoop_ok zc zd hz hne cfg.k cfg.segSize hpred cat hcat (by omega) a cat.length cat 0 0 #[]
+    rfl (by simp) (by omega) (fun _ => rfl)
+  rw [hlen] at hloop
+  rw [hloop]
+  simp [hlen]
 
 end Ragc.WriterLemmas
